@@ -136,6 +136,38 @@ package sparseindex
 //@   ensures result.left == left && result.right == right && result.leftIncluded == li && result.rightIncluded == ri
 //@   assigns nothing
 
+// A scan never changes the index it reads: building a range writes only the fresh Range and bounds of its
+// own (the open-to-closed conversion of integer bounds must not update the referenced index column).
+//@ func (*Range).turnOpenRangeIntoClosed
+//@   requires wfr(r)
+//@   assigns r.left, r.right, r.leftIncluded, r.rightIncluded
+//@   ensures wfr(r)
+//@ func NewFieldRef
+//@   ensures result != nil && fresh(result) && result.column == column && result.row == row
+//@   assigns nothing
+//@ func NewColumnRef
+//@   ensures result != nil && fresh(result) && result.dataType == dataType && result.column == column
+//@   assigns nothing
+//@ func newIntegerBound
+//@   ensures result != nil && fresh(result)
+//@   assigns nothing
+//@ func createWholeRangeIncludeBound
+//@   requires NEGATIVE_INFINITY != nil && POSITIVE_INFINITY != nil
+//@   ensures wfr(result) && fresh(result)
+//@   assigns nothing
+//@ func createWholeRangeWithoutBound
+//@   requires NEGATIVE_INFINITY != nil && POSITIVE_INFINITY != nil
+//@   ensures wfr(result) && fresh(result)
+//@   assigns nothing
+//@ func createLeftBounded
+//@   requires left != nil && NEGATIVE_INFINITY != nil && POSITIVE_INFINITY != nil
+//@   ensures result != nil && fresh(result)
+//@   assigns nothing
+//@ func createRightBounded
+//@   requires right != nil && NEGATIVE_INFINITY != nil && POSITIVE_INFINITY != nil
+//@   ensures result != nil && fresh(result)
+//@   assigns nothing
+
 //@ func (*Range).leftLEQ
 //@   requires wfr(r) && x != nil
 //@   ensures result == (fr_lt(r.left, x) || (r.leftIncluded && fr_eq(x, r.left)))
